@@ -160,11 +160,17 @@ def check_case(case):
                 Rm = Rx(wx) @ Ry(wy)
                 og, eg = mod.find_omega_general(gin, tth, wx, wy)
                 verify("find_omega_general", og, eg, lambda o: Rx(wx) @ Ry(wy) @ Rz(o), tk + ":general")
+                for o_ in og:  # the property states the condition under the module's own builders: they must BE these matrices
+                    r.check("general-matrix", float(np.max(np.abs(np.asarray(mod.form_omega_mat_general(float(o_), wx, wy), float) - Rx(wx) @ Ry(wy) @ Rz(float(o_))))), 1e-12,
+                            tk + ":general:module-matrix", "form_omega_mat_general(omega, chi, wedge) = Rx(chi).Ry(wedge).Rz(omega) at the returned omega")
                 exp = expected_count(Rm[0], g, st)
                 count("find_omega_general", len(og), exp, tk + ":general", og)
                 r.require(len(og) == len(eg), tk + ":general:len", "one eta per omega")
                 oq, eq = mod.find_omega_quart(gin, tth, wx, wy)
                 verify("find_omega_quart", oq, eq, lambda o: (Rx(wx) @ Ry(wy)) @ Rz(o) @ (Rx(wx) @ Ry(wy)).T, tk + ":quart")
+                for o_ in oq:
+                    r.check("quart-matrix", float(np.max(np.abs(np.asarray(mod.quart_to_omega(math.degrees(float(o_)), wx, wy), float) - Rm @ Rz(float(o_)) @ Rm.T))), 1e-12,
+                            tk + ":quart:module-matrix", "quart_to_omega(omega, wx, wy) = P.Rz(omega).P' at the returned omega")
                 gp = Rm.T @ g
                 expq = expected_count(Rm[0], gp, st)
                 # (P Rz P' g)_x = p0 . Rz (P' g): same equation with g' = P' g
